@@ -45,7 +45,7 @@ def floors(tier):
             "counter:tolerance_sequences_checked": 10, "counter:continued_runs": 4, "counter:rejections_observed": 200,
             "class:prior-unif": 8, "class:prior-gamma": 5, "class:prior-norm": 5, "class:logscale": 5, "class:non-model-order": 8,
             "class:nearest-neighbours": 5, "class:tolerance-list": 3, "class:quantile": 10,
-            "class:infers-initial-state": 8, "class:tol-int": 8, "class:legacy-sampler": 6, "counter:recorded_tolerance_checks": 40, "class:three-or-more-unknowns": 6, "class:re-ordering-not-self-inverse": 3}
+            "class:infers-initial-state": 8, "class:tol-int": 8, "class:legacy-sampler": 6, "counter:recorded_tolerance_checks": 25, "class:three-or-more-unknowns": 6, "class:re-ordering-not-self-inverse": 3}
 
 
 class AbcProbe:
